@@ -20,23 +20,23 @@ CHECKS = {
          "a rebuild returning Err is allowed and only tallied; sources without listfile list nothing"),
  "C13": ("exploration", "generated M2 models / skins / anim objects (29 sections each empty/one/many, extreme floats, long names) x 5 versions: write->parse projection equality, byte-identical rewrite, same-version and cross-version conversion, independent (count,offset) walker", "reference-model monitor (object before write) + independent offset walker", "§6 C13",
          "projection exclusions are listed in evidence; nine writer/parser behaviours are known findings reported under risk=<predicate>"),
- "C15": ("exploration", "generated WMO roots and groups (every list empty/one/many, aliasing string tables, extreme floats) x 5 versions x 25 conversion pairs: parse projections, byte-identical second write, header counts and string offsets via an independent chunk walker", "reference-model monitor + independent chunk walker", "§6 C15",
+ "C15": ("exploration", "generated WMO roots and groups (every list empty/one/many, aliasing string tables, extreme floats) x 5 versions x 25 conversion pairs: parse projections, byte-identical second write, header counts and string offsets via an independent chunk walker; WmoEditor add/remove histories judged by a tally; write_group into streams that hold data in front of / behind the writer", "reference-model monitor + independent chunk walker", "§6 C15",
          "exclusions listed in evidence; derived/unmodelled fields are not compared"),
  "C16": ("exploration", "images x 25 targets x mipmaps x filters: encode->parse equality, mip chain to 1x1, independent mip-table walker (inside file, no overlap), exact raw3 pixels, palette-membership and alpha quantisation for raw1", "reference-model monitor + independent header walker + pixel oracle", "§6 C16",
          "'quantised' admits floor, round or ceil; JPEG/DXT structure only"),
- "C17": ("exploration", "generated schemas x record sets written by an independent DBC encoder; eager, cached, lazy, mmap, parallel and rewrite paths compared with the model and with each other; written size and string de-duplication; hashed and binary-search key lookups; ASan slice for the mmap path (thorough)", "reference-model monitor + independent encoder; AddressSanitizer on the mmap path", "§6 C17",
+ "C17": ("exploration", "generated schemas x record sets written by an independent DBC encoder; eager, cached, lazy, mmap, parallel and rewrite paths compared with the model and with each other; written size and string de-duplication; hashed and binary-search key lookups; the lazy iterator driven through next/nth/skip/take/step_by/size_hint/count programs; ASan slice for the mmap path (thorough)", "reference-model monitor + independent encoder; AddressSanitizer on the mmap path", "§6 C17",
          "WDBC with schemas only; valid inputs only"),
  "C08": ("exploration", "chain histories (all of length <= 3, sampled longer, all insertion orders x three construction APIs, tied parallel loads) against a priority-list model; generated COPY/BSD0 patches (independent encoder, RLE, bsdiff apply) direct and through PATCH_FILE chains, with every header field and payload region corrupted: result must be Err or carry the declared md5_after", "reference-model monitor (priority list) + independent patch oracle + panic trap + heap-request monitor; task-event hook for parallel open orders", "§6 C08",
          "archives without listfile are outside the workload; ties touched by set_priority may resolve either way"),
- "C11": ("exploration", "hostile entry/listfile names (grammar over .., separators, absolute, drive, UNC, long, unicode) planted by an independent MPQ writer, extracted by the CLI in 12 configurations; two observers of the whole neighbourhood: before/after tree snapshot and strace write-class syscall checker; benign files must still be extracted bit-identically", "file-system snapshot monitor + syscall trace checker (strace) at the process boundary", "§6 C11",
+ "C11": ("exploration", "hostile entry/listfile names (grammar over .., separators, absolute, drive, UNC, long, unicode) planted by an independent MPQ writer, extracted by the CLI in 12 configurations, incl. names no archive holds (asked for / listed without an entry) and files already standing where a hostile name would lead; two observers of the whole neighbourhood: before/after tree snapshot and strace write-class syscall checker; benign files must still be extracted bit-identically", "file-system snapshot monitor + syscall trace checker (strace) at the process boundary", "§6 C11",
          "names that would leave /verif/scratch if honoured are never generated (root-anchored names are anchored inside the sandbox)"),
  "C14": ("exploration", "generated ADT builder inputs (isolated features per version, covering arrays over root and MCNK optional chunks, invalid inputs) x versions: build->bytes->parse equality, 1-4 parse->rebuild rounds stable and non-growing, independent chunk walker for framing, MHDR and MCIN entries", "reference-model monitor (builder input) + independent chunk walker", "§6 C14",
          "exclusions listed in evidence (detected-version label, serializer-computed fields, neutral MTXF, MCIN size convention)"),
- "C19": ("exploration", "model-based single-thread histories over all 30 exported functions with stale/forged/null handles and canary buffers; threaded runs with call/return logs checked offline (per-handle linearisation of the cursor, no success after close, unique ids); ASan and an overflow-checks build over the same histories, TSan over threaded runs and a Miri slice (thorough)", "handle-table model + canaries + offline linearizability/ordering checker over call logs; AddressSanitizer, ThreadSanitizer, Miri", "§6 C19",
+ "C19": ("exploration", "model-based single-thread histories over all 30 exported functions with stale/forged/null handles and canary buffers, scripted probes (replace / rename under an open handle, close under failing writes via RLIMIT_FSIZE, names beyond ASCII across the 259-byte find-record limit); threaded runs with call/return logs checked offline (per-handle linearisation of the cursor, no success after close, unique ids); ASan and an overflow-checks build over the same histories, TSan over threaded runs and a Miri slice (thorough)", "handle-table model + canaries + offline linearizability/ordering checker over call logs; AddressSanitizer, ThreadSanitizer, Miri", "§6 C19",
          "seek semantics beyond either end not compared; re-entrant callbacks not driven; calls that cannot return on this tree are probed separately on a helper thread"),
- "C20": ("exploration", "the warcraft-rs binary driven on generated inputs: create->extract byte identity over versions x compressions x listfile x extract options, list/info against the library's view, and every sub-command of every format family on valid, truncated and corrupted inputs judged against the verdict of the library call it wraps (computed in-process) and against the promised output (exists, parses, equals the library writer's bytes)", "process-boundary monitor: exit status / output oracle against the library's own answer; valgrind memcheck on the raw hex-dump paths (thorough)", "§6 C20",
+ "C20": ("exploration", "the warcraft-rs binary driven on generated inputs: create->extract byte identity over versions x compressions x listfile x extract options, list/info (filters derived from the archive's names judged against a glob model) against the library's view, and every sub-command of every format family on valid, truncated and corrupted inputs judged against the verdict of the library call it wraps (computed in-process) and against the promised output (exists, parses, equals the library writer's bytes)", "process-boundary monitor: exit status / output oracle against the library's own answer; valgrind memcheck on the raw hex-dump paths (thorough)", "§6 C20",
          "a panic exit counts as non-zero but is reported as panic-exit; names avoid listfile syntax and option-like prefixes; known upstream findings (PKWare, bomb ratio) kept out of the workload"),
- "C09": ("exploration", "all nine parallel interfaces x thread counts {1,2,3,7,16,32,default} x batch sizes x request shapes (empty, duplicates incl. interleaved, 999..5200 names, missing names at every kind of position, skip-errors on/off) compared slot by slot with a sequential baseline, each configuration repeated under seeded delays and background CPU load; task-event hook yields completion orders and thread assignments (distinct schedules counted, no-diversity reported); ThreadSanitizer slice (thorough)", "per-slot equality with sequential reads; task-event trace hook (schedule diversity measured); ThreadSanitizer", "§6 C09",
+ "C09": ("exploration", "all nine parallel interfaces x thread counts {1,2,3,7,16,32,default} x batch sizes x request shapes (empty, duplicates incl. interleaved, 999..5200 names, missing names at every kind of position, skip-errors on/off) compared slot by slot with a sequential baseline (fresh handle, fresh thread when a used thread disagrees), each configuration repeated under seeded delays and background CPU load; task-event hook yields completion orders and thread assignments (distinct schedules counted, no-diversity reported); ThreadSanitizer slice (thorough)", "per-slot equality with sequential reads; task-event trace hook (schedule diversity measured); ThreadSanitizer", "§6 C09",
          "no control over the OS scheduler: diversity is induced and measured; TSan reports inside crossbeam-epoch reclamation (fences TSan does not model) are suppressed and counted"),
  "C10": ("fault_enumeration", "byte corruption at enumerated offsets of every protected region (file data, sector offset/CRC tables, attributes, V4 header and tables, signature) of archives carrying each kind of integrity metadata, plus paired corruptions (checksum zeroed + data flipped, attribute forged to match); verifier per kind as the statement names it; sign/verify/bit-flip sweep of the weak-signature functions", "fault enumeration (every k-th / every offset) with a detection oracle: error or invalid status, or content bit-identical", "§6 C10",
          "a crash while reading a corrupted archive is tallied (C05's clause) but not judged here; multi-sector sector-checksum verification is a known finding (never compared)"),
